@@ -635,6 +635,46 @@ func calleeOf(info *types.Info, c *ast.CallExpr) *types.Func {
 	return nil
 }
 
+// wrapperOf: functions of the scanned packages whose whole body is `return g(...)` and whose last
+// result is an error: for the error bookkeeping a call of such a helper is a call of g (extracting a
+// helper around a call does not change which error can be lost where)
+var wrapperOf map[string]string
+
+func collectWrappers() {
+	wrapperOf = map[string]string{}
+	for _, n := range fnOrder {
+		f := fns[n]
+		if f.decl == nil || f.decl.Body == nil || len(f.decl.Body.List) != 1 || f.obj == nil {
+			continue
+		}
+		ret, ok := f.decl.Body.List[0].(*ast.ReturnStmt)
+		if !ok || len(ret.Results) != 1 {
+			continue
+		}
+		c, ok := unparen(ret.Results[0]).(*ast.CallExpr)
+		if !ok {
+			continue
+		}
+		sig := f.obj.Type().(*types.Signature)
+		if sig.Results().Len() == 0 || !isErr(sig.Results().At(sig.Results().Len()-1).Type()) {
+			continue
+		}
+		wrapperOf[f.name] = calleeText(f.info(), c)
+	}
+}
+
+func errSource(info *types.Info, c *ast.CallExpr) string {
+	name := calleeText(info, c)
+	for k := 0; k < 5; k++ {
+		w, ok := wrapperOf[name]
+		if !ok {
+			break
+		}
+		name = w
+	}
+	return name
+}
+
 func calleeText(info *types.Info, c *ast.CallExpr) string {
 	if fo := calleeOf(info, c); fo != nil {
 		return funcName(fo)
@@ -1247,6 +1287,18 @@ type flow struct {
 	f    *fn
 	e    types.Object
 	outs map[string]bool
+	// logged: an `if e != nil { ... }` that does not leave the function was passed (the error was only
+	// logged so far); what happens to e afterwards decides: returned or tested again -> handled,
+	// overwritten / never looked at again -> "logged"
+	logged bool
+}
+
+// lost records that the error value disappears here without having been handled
+func (w *flow) lost(how string) {
+	if w.logged {
+		how = "logged"
+	}
+	w.outs[how] = true
 }
 
 func (w *flow) mentions(n ast.Node) bool {
@@ -1313,7 +1365,7 @@ func (w *flow) step(s ast.Stmt) bool {
 			if x.Tok != token.ASSIGN && x.Tok != token.DEFINE {
 				return false // err += ... reads
 			}
-			w.outs["overwritten"] = true
+			w.lost("overwritten")
 			return false
 		}
 		return true
@@ -1321,7 +1373,7 @@ func (w *flow) step(s ast.Stmt) bool {
 		if w.mentions(x) || (len(x.Results) == 0 && w.f.named[w.e]) {
 			return false
 		}
-		w.outs["unchecked"] = true
+		w.lost("unchecked")
 		return false
 	case *ast.BranchStmt:
 		return false
@@ -1408,6 +1460,12 @@ func (w *flow) ifFromCond(x *ast.IfStmt) bool {
 	if w.mentions(x.Cond) {
 		if w.testsNonNil(x.Cond) {
 			if !terminates(w.f.info(), x.Body.List) {
+				if x.Else == nil && !w.logged {
+					// keep following the error behind the if: `if err != nil { log }; return x, err`
+					// hands it on, `if err != nil { log }; err = ...` loses it
+					w.logged = true
+					return true
+				}
 				w.outs["logged"] = true
 			} else if ret, isRet := x.Body.List[len(x.Body.List)-1].(*ast.ReturnStmt); isRet && !w.mentions(x.Body) && !hasAbruptCall(w.f.info(), x.Body) {
 				// returns without the error: turned into a plain value or into a nil error
@@ -1490,7 +1548,7 @@ func (w *flow) after(n ast.Node) {
 			n = p
 		case *ast.FuncDecl, *ast.FuncLit:
 			if !w.f.named[w.e] {
-				w.outs["unchecked"] = true
+				w.lost("unchecked")
 			}
 			return
 		default:
@@ -1534,7 +1592,7 @@ func (f *fn) discards() []discard {
 		}
 		if id.Name == "_" {
 			if !quiet(c) {
-				add(calleeText(info, c), "blank", stmt)
+				add(errSource(info, c), "blank", stmt)
 			}
 			return
 		}
@@ -1556,7 +1614,7 @@ func (f *fn) discards() []discard {
 		}
 		sort.Strings(hows)
 		for _, h := range hows {
-			add(calleeText(info, c), h, stmt)
+			add(errSource(info, c), h, stmt)
 		}
 	}
 	ast.Inspect(f.decl.Body, func(n ast.Node) bool {
@@ -1564,7 +1622,7 @@ func (f *fn) discards() []discard {
 		case *ast.ExprStmt:
 			if c, ok := unparen(s.X).(*ast.CallExpr); ok {
 				if _, isErrLast := lastIsErr(info, c); isErrLast && !quiet(c) {
-					add(calleeText(info, c), "blank", s)
+					add(errSource(info, c), "blank", s)
 				}
 			}
 		case *ast.AssignStmt:
@@ -1977,6 +2035,7 @@ func main() {
 	os.RemoveAll(tmpdir)
 	tmpdir = ""
 	collectFuncs()
+	collectWrappers()
 	for _, n := range fnOrder {
 		fns[n].prepare()
 	}
